@@ -139,6 +139,33 @@ pub fn apply<G: AffineRepr>(m: &Mirror<G>, mu: &Mut, B: &G) -> Option<Mirror<G>>
     Some(x)
 }
 
+/// A point of the curve outside the prime-order subgroup (None for cofactor-one curves): found by
+/// decoding small coordinates with the library's *unchecked* decoder and testing [r]P != O.
+pub fn torsion_point<G: AffineRepr>() -> Option<G> {
+    use ark_ff::PrimeField;
+    use ark_serialize::{CanonicalDeserialize, CanonicalSerialize};
+    let mut b = vec![];
+    G::generator().serialize_compressed(&mut b).ok()?;
+    let psz = b.len();
+    let r = <G::ScalarField as PrimeField>::MODULUS;
+    let mut best: Option<G> = None;
+    for c in 0u64..200 {
+        let mut e = vec![0u8; psz];
+        e[..8].copy_from_slice(&c.to_le_bytes());
+        if let Ok(p) = G::deserialize_compressed_unchecked(&e[..]) {
+            if !p.is_zero() {
+                // the pure torsion component: [r]P
+                let t = p.mul_bigint(r).into_affine();
+                if !t.is_zero() {
+                    best = Some(t);
+                    break;
+                }
+            }
+        }
+    }
+    best
+}
+
 /// All single-field algebraic perturbations and round-list operations for a proof with `np` point
 /// fields.
 pub fn single_field_muts(np: usize) -> Vec<Mut> {
